@@ -248,6 +248,7 @@ SHARED = {
     "C03": [("c11", "r11_4_sign_discipline")],
     "C04": [("c02", "r02_5_leap_decisions")],
     "C06": [("c04", "r04_8_queries_are_used"), ("c02", "r02_5_leap_decisions")],
+    "C18": [("c12", "r12_2_3_eq_hash_fields")],
     "C07": [("c08", "r08_7_embedded_fields"), ("c17", "r17_8_variable_precision_predicates"), ("c08", "r08_10_field_set_tests")],
 }
 
